@@ -28,6 +28,8 @@ RULE = ('sessions = scenario histories (chains and cycles of new objects, update
         'distinct = distinct (schema, op list prefix up to the commit)')
 
 SCEN = [
+    # _delete_ of an object whose one-to-one partner (cascaded) clears its back reference: the object is queued twice (see c16_impl.pending)
+    ('delete-requeues-object', 'S3', [["new", 0, 1, []], ["new", 5, 1, [[1, ["o", 0]]]], ["new", 1, 1, [[1, ["os", [0]]]]], ["commit"], ["del", 0], ["commit"]]),
     # chains of new objects created in the "wrong" order for the queue: the referenced object is created later / reached through an update
     ('chain-new-parent-after-child', 'S1', [["new", 0, 1, [[5, ["i", 0]]]], ["commit"], ["new", 4, 1, [[1, ["o", 0]]]], ["new", 0, 2, [[5, ["i", 1]]]],
                                              ["set", 1, 1, ["o", 2]], ["new", 6, 1, [[1, ["o", 1]]]], ["commit"]]),
@@ -141,6 +143,14 @@ def correspondence(ctx):
     for k, (label, sname, ops, fl) in enumerate(cases):
         dist['flushes'] += 1
         if not usable(fl): dist['skipped_unmapped_rows'] += 1; continue
+        if fl['pending'].get('requeued'):
+            # the object is deleted at its first (earlier) slot, before the statements of its cascaded dependents: accepted by the database
+            # only through the ON DELETE clauses, which the model deliberately ignores -> the model is not consulted, the flush must succeed
+            dist['requeued_object_in_objects_to_save'] += 1
+            if fl['outcome'] != 0:
+                disagreements.append({'what': 'flush failed (%s) with an object queued twice in objects_to_save [%s]' % (fl['error'], label),
+                                      'input': {'schema': sname, 'ops': ops, 'pending': fl['pending']}})
+            continue
         chunks.append(flush_coq('c%d' % k, fl)); used.append((label, sname, ops, fl))
     per = max(20, min(120, (len(chunks) + 7) // 8))
     outs = vlib.coq_eval_many(ctx, HEADER, [''.join(chunks[i:i + per]) for i in range(0, len(chunks), per)], name='f')
